@@ -40,18 +40,33 @@ EXHAUSTIVE = {}
 BIG = 1e9
 
 
+class StepCap(Exception):
+    """the run is beyond the deterministic step cap (input too big for this check)"""
+
+
+STEP_CAP = 40000
+
+
 class Counting:
     """Scorer handed in through ``scorer=``; delegates to the real one."""
 
     def __init__(self, log, inner):
         self.log = log
         self.inner = inner
+        self.n = 0
+
+    def _tick(self):
+        self.n += 1
+        if self.n > STEP_CAP:
+            raise StepCap()
 
     def score(self, txt, ts, pp):
+        self._tick()
         self.log.append(("score",))
         return self.inner.score(txt, ts, pp)
 
     def score_final(self, txt, ts, pp, prod):
+        self._tick()
         self.log.append(("score_final",))
         return self.inner.score_final(txt, ts, pp, prod)
 
@@ -138,6 +153,8 @@ def _run(lib, case, timeout, entry, deltas=None, stall_at=None, stall_by=0.0):
             else:
                 r = lib["ctparse"].ctparse(case["text"], **kw)
                 out = core.cand_key(r)
+        except StepCap:
+            exc = "StepCap: search beyond %d scorer calls" % STEP_CAP
         except Exception as e:  # the property says: never raises
             exc = "%s: %s" % (type(e).__name__, e)
     return out, log, exc, clock
@@ -398,9 +415,13 @@ def plan(prop, tier, seed):
     sample_n = 120 if quick else 700
     chunk = 40
     cases = []
-    for text, fam in texts:
+    base_seed = core.derive_seed(seed, prop, tier)
+    for ti, (text, fam) in enumerate(texts):
         if fam == "family" and len(text.split()) >= (5 if quick else 7):
             continue
+        # one PRNG stream per input, so that nothing learnt from the code under test (the
+        # number of clock reads) can shift the choices made for later inputs
+        rng = core.stream(core.derive_seed(base_seed, "input", ti), "workload")
         opts = {"scorer": "shipped", "max_stack_depth": 10, "latent_time": True,
                 "relative_match_len": 1.0}
         r = rng.random()
@@ -408,7 +429,9 @@ def plan(prop, tier, seed):
             if r < 0.2:
                 opts["scorer"] = "dummy"
             if rng.random() < 0.3:
-                opts["max_stack_depth"] = rng.choice([0, 1, 3])
+                # the un-truncated search only for short texts (it explodes beyond that)
+                opts["max_stack_depth"] = rng.choice([0, 1, 3] if len(text.split()) <= 3
+                                                     else [1, 3])
             if rng.random() < 0.3:
                 opts["latent_time"] = False
             if rng.random() < 0.2:
